@@ -56,6 +56,10 @@ def gen_tie(rng, cid):
         # the tie under a kernel that reads operand VALUES, next to a non-constant operand
         other = p.emit(f"bin OP_ADD {ax[rng.randrange(3)]} {const(rng.choice([1.0, 2.0, 3.0]))}", "tree")
         op = rng.choice(["OP_MUL", "OP_MUL", "OP_DIV", "OP_ATAN2"])
+        if rng.random() < 0.5 and (op == "OP_MUL" or c != 0.0):
+            # a BARE coordinate as the other operand: its row is a leaf, not a tape clause, and holds whatever earlier
+            # queries of a long-lived evaluator left in slots >= 1
+            other = ax[rng.randrange(3)]
         shifted = p.emit(f"bin OP_ADD {cur} {const(4.0)}", "tree") if op != "OP_MUL" else cur     # keep divisors away from 0
         l, rr = (shifted, other) if rng.random() < 0.5 else (other, shifted)
         cur = p.emit(f"bin {op} {l} {rr}", "tree")
